@@ -25,7 +25,7 @@ r = sh("cd %s && timeout 120 /venv/bin/python %s" % (wt, demo)); res["demo_mutan
 res["demo_mutant_out"] = (r.stdout + r.stderr)[-300:]
 res["checks"] = {}
 for c in [pid] + extra:
-    r = subprocess.run("cd /verif && VERIF_REPO=%s ./check %s --tier quick" % (wt, c), shell=True, capture_output=True, text=True,
+    r = subprocess.run("cd /verif && VERIF_REPO=%s ./check %s --tier %s" % (wt, c, os.environ.get("EVAL_TIER", "quick")), shell=True, capture_output=True, text=True,
                        env=dict(os.environ, VERIF_REPO=wt))
     clauses = sorted({l.split("clause=")[1].split(" ")[0] for l in r.stdout.splitlines() if "clause=" in l})
     res["checks"][c] = dict(rc=r.returncode, clauses=clauses)
